@@ -1181,6 +1181,142 @@ def gen_validation_specs(ctx):
 
 
 # ------------------------------------------------------------------------------------------------------
+# validation in every state of a sampler object (target re-assignment histories)
+# ------------------------------------------------------------------------------------------------------
+STATES = ["assigned-uninit", "initialized", "after-step", "after-warmup", "after-sample", "after-refused"]
+_KEEPS = {}
+
+
+def base_spec(iface):
+    """a supported target of the interface's own pair class (what the object holds before the re-assignment)"""
+    pr = {"kind": "gamma", "dim": 1, "name": "s", "alpha": "3/2", "beta": "1/2"}
+    if iface == "approx":
+        return {"family": "lmrf", "m": 3, "var": "scale", "dep": scalar_dep(Inv(V())), "mean": ["0"], "data": ["1", "0", "2"], "route": "direct", "prior": pr}
+    return {"family": "gaussian", "m": 3, "var": "cov", "dep": scalar_dep(Inv(V())), "mean": ["0", "0", "0"], "data": ["1", "2", "-1"], "route": "direct", "prior": pr}
+
+
+def sampler_in_state(iface, state):
+    import cuqi.experimental.mcmc as M
+    cls = M.ConjugateApprox if iface == "approx" else M.Conjugate
+    with QUIET, ScriptedRandom(seed=3):
+        if state == "assigned-uninit":
+            return cls(), False, False
+        smp = cls(build_target(base_spec(iface)))
+        if state == "initialized":
+            smp.initialize()
+        elif state == "after-step":
+            smp.step()
+        elif state == "after-warmup":
+            smp.warmup(1)
+        elif state == "after-sample":
+            smp.sample(1)
+        elif state == "after-refused":
+            smp.sample(1)
+            bad = dict(base_spec("exp"), var="cov", dep=scalar_dep(V())) if iface == "exp" else dict(base_spec("approx"), dep=scalar_dep(V()))
+            try:
+                smp.target = build_target(bad)
+            except Exception:
+                pass
+        return smp, bool(getattr(smp, "_is_initialized", False)), True
+
+
+def keeps_refused_variant():
+    """does `sampler.target = refused` leave the refused target in the object (tree today) or restore the previous one
+    (fixes/C10_retarget_restore.diff)?  probed once"""
+    if "k" not in _KEEPS:
+        smp, _, _ = sampler_in_state("exp", "after-sample")
+        prev = smp.target
+        bad = build_target(dict(base_spec("exp"), dep=scalar_dep(V())))
+        try:
+            with QUIET:
+                smp.target = bad
+            _KEEPS["k"] = True
+        except Exception:
+            _KEEPS["k"] = smp.target is bad
+    return _KEEPS["k"]
+
+
+def retarget_case(ctx, spec, iface, state, cell):
+    """assign the target described by spec to a sampler object in the given state; compare the verdict with the model (which gives
+    the verdict of a fresh sampler: the refusals may not depend on the state) and, after a refusal, what the object then samples"""
+    meta = {"op": "retarget", "iface": iface, "state": state, "spec": spec}
+    try:
+        target = build_target(spec)
+    except Exception:
+        return []
+    try:
+        order = list((target.likelihood.distribution if spec.get("posterior", True) else target).get_mutable_variables())
+    except Exception:
+        order = ["mean", "cov"]
+    smp, initialized, had = sampler_in_state(iface, state)
+    before = draw(iface, smp)[1] if had else None          # the Gamma of the target it holds now
+    fail, sig = None, ""
+    try:
+        with QUIET:
+            smp.target = target
+        obs, accepted = 'Accept ""', True
+    except Exception as e:
+        kind = classify_error(e)
+        accepted = False
+        if kind is None:
+            return [Case(expr="false", meta=dict(meta, note="unrecognised refusal %s: %s" % (type(e).__name__, str(e)[:200])), cell=cell, kind="DECISION")]
+        obs = "Reject %s" % kind
+    holds_new = smp.target is target
+    if accepted:
+        # same property oracles as for a fresh sampler
+        if spec["prior"]["kind"] == "gamma" and spec.get("posterior", True) and int(target.prior.dim) != 1:
+            fail, sig = nonscalar_oracle(target, spec, iface, smp), "%s|nonscalar-gamma-accepted" % site(iface)
+        elif spec["family"].startswith("reg") and spec.get("preset", "nonnegativity") != "nonnegativity":
+            fail, sig = "a regularized Gaussian with preset %r was accepted by a re-assignment" % spec.get("preset"), "%s|unsupported-preset-accepted" % site(iface)
+        elif iface == "exp" and spec["family"] in ("gaussian", "gmrf") and spec["prior"]["kind"] == "gamma":
+            try:
+                val, ga, *_ = draw(iface, smp)
+                orc = oracle_sample(target, spec, ga[0], 1.0 / ga[1]) if ga else None
+                bad = orc and (orc["form_fail"] or orc["shape_fail"] or orc["rate_fail"])
+                if bad and spec.get("bc", "zero") == "zero":
+                    fail = "re-assigned in state %r and accepted, but the Gamma it draws from is not proportional to the target: %s" % (state, bad)
+                    sig = "exp.Conjugate|probe:three-point|non-identity-accepted" if passes_documented_probe(spec) else "exp.Conjugate|unsupported-dependence-accepted"
+            except Exception as e:
+                fail, sig = "re-assigned and accepted, but the draw raised %s: %s" % (type(e).__name__, str(e)[:100]), "exp.Conjugate|accepted-then-raises"
+    elif had:
+        # refused: whatever the object samples afterwards must be the target it held before (or nothing)
+        try:
+            after = draw(iface, smp)[1]
+        except Exception:
+            after = None
+        if after is not None and after != before:
+            fail = ("the assignment was refused (%s) but the object keeps the refused target and step() then draws from Gamma(shape=%.6g, scale=%.6g) "
+                    "instead of the Gamma(%.6g, %.6g) of the target it held" % (obs, after[0], after[1], before[0], before[1]))
+            sig = "%s|refused-target-retained" % site(iface)
+    expr = "check_retarget %s %s %s %s %s %s (%s) %s" % (cbool(keeps_refused_variant()), IFACE_COQ[iface], cbool(initialized), cbool(had),
+                                                         target_coq(base_spec(iface), ["mean", "cov"] if iface == "exp" else ["scale", "location"]),
+                                                         target_coq(spec, order), obs, cbool(holds_new))
+    return [Case(expr=expr, meta=meta, cell=cell, kind="DECISION", impl_fail=fail, signature=sig)]
+
+
+def gen_retarget_specs(ctx):
+    """a representative of every refusal clause (and supported targets) x every state x both experimental samplers"""
+    vs = gen_validation_specs(ctx)
+    want_exp = ["validate/gaussian/cov/id/exp", "validate/gaussian/cov/recip/exp", "validate/gaussian/prec/s^2/exp", "validate/gaussian/prec/id/exp",
+                "validate/gaussian/prec/2s/exp", "validate/gmrf/prec/s^2/exp", "validate/gmrf/prec/id/exp", "validate/gaussian/sqrtprec/sqrtprec:s/exp",
+                "validate/wrong-name/exp", "validate/several-occurrences/exp", "validate/gamma-dim2/exp", "validate/gamma-decl/gaussian-prec/geometry_int/exp",
+                "validate/gamma-decl/gmrf-prec/geometry_obj/exp", "validate/prior-gaussian/exp", "validate/lik-laplace/exp", "validate/preset-box/exp",
+                "validate/reggaussian/prec/id/exp", "validate/reggaussian/cov/2/s/exp", "validate/gaussian/prec/poly{1,10}/exp", "validate/gaussian/cov/eye(m)/s/exp"]
+    want_apx = ["validate/lmrf/scale/recip/approx", "validate/lmrf/scale/id/approx", "validate/lmrf/location-nonzero/approx", "validate/lmrf/gamma-dim2/approx",
+                "validate/lmrf/wrong-name/approx", "validate/lmrf/lik-gaussian/approx", "validate/lmrf/prior-gaussian/approx"]
+    out, seen = [], set()
+    for spec, iface, cell in vs:
+        if cell in want_exp or cell in want_apx:
+            seen.add(cell)
+            for st in STATES:
+                out.append((spec, iface, st, "retarget/%s/%s" % (st, cell[len("validate/"):])))
+    missing = [c for c in want_exp + want_apx if c not in seen]
+    if missing:
+        ctx.note("retarget: validation cells not found (renamed?): %s" % missing)
+    return out
+
+
+# ------------------------------------------------------------------------------------------------------
 # probes called directly
 # ------------------------------------------------------------------------------------------------------
 def probe_cases(ctx):
@@ -1421,6 +1557,8 @@ def run(ctx):
     for spec, iface, cell in gen_sample_specs(ctx):
         cases += sample_cases(ctx, spec, iface, cell)
     cases += history_cases(ctx)
+    for spec, iface, st, cell in gen_retarget_specs(ctx):
+        cases += retarget_case(ctx, spec, iface, st, cell)
     for spec, iface, cell in gen_validation_specs(ctx):
         cases += validation_case(ctx, spec, iface, cell)
     cases += probe_cases(ctx)
@@ -1514,6 +1652,8 @@ def classify(meta, detail):
         return "%s|%s|correspondence" % (site(iface), m["spec"]["family"])
     if op == "validate":
         return "%s|validation" % site(iface)
+    if op == "retarget":
+        return "%s|validation-in-state" % site(iface)
     if op == "probe":
         return "exp.Conjugate|probe-decision"
     if op == "approx":
